@@ -3,6 +3,11 @@ import CookModel.Lemmas.CollectorFold
 import CookModel.Lemmas.ClosingStream
 import CookModel.Lemmas.CollectorOrder
 import CookModel.Lemmas.CollectorRefIff
+import CookModel.Lemmas.CollectorBack
+import CookModel.Lemmas.CollectorInterRef
+import CookModel.Lemmas.CollectorStrictWB
+import CookModel.Lemmas.CollectorShape
+import CookModel.Lemmas.CollectorTextItems
 /-
   C06  The recipe model is referentially consistent.
 
@@ -23,6 +28,13 @@ import CookModel.Lemmas.CollectorRefIff
   `C06_statement` itself, and is decided on every run by the invariant oracle meanwhile.
   UPDATE: that lemma is now proved (`C06_parser_events_ok`, Lemmas/ClosingEvOK.lean and
   Lemmas/ClosingStream.lean), and with it `C06_holds : C06_statement`.
+  UPDATE 2: the clauses of the property that `RecipeInv` does not contain are proved for the returned
+  recipe as separate predicates and collected in `C06_holds_full`: `CookwareRefsOK`
+  (`C06_cookware_references`), `BacklinksSound` (`C06_backlinks_sound`, `C06_backlinks_no_duplicates`),
+  `StepRefsOK` / `SectionRefsOK` (`C06_step_reference_target`, `C06_section_reference_target`; they need
+  the parser-side lemma `C06_parser_sections_outside_blocks`), `RefNamesMatch`
+  (`C06_reference_name_matches`), `RelationsShaped` (`C06_relations_shaped`), `TextItemsNonEmpty`
+  (`C06_no_empty_text_item`, with the parser-side lemma `C06_parser_text_events_nonempty`).
 -/
 namespace Cook
 variable {α : Type} [Arith α]
@@ -343,5 +355,403 @@ example : ¬ HasErr #[⟨.warning, .analysis, "redundant-ref", []⟩] := by
   simp at hd; subst hd; cases hs
 example : HasErr #[⟨.warning, .analysis, "redundant-ref", []⟩, ⟨.error, .analysis, "reference-not-found", [⟨0, 1⟩]⟩] :=
   ⟨⟨.error, .analysis, "reference-not-found", [⟨0, 1⟩]⟩, by simp, rfl⟩
+
+/-! ### the remaining reference clauses, for the RETURNED recipe
+    (Lemmas/CollectorTrans.lean, CollectorBack.lean, CollectorInterRef.lean, CollectorStrictWB.lean) -/
+
+/-- every cookware item that is a reference points to an EARLIER cookware item that is a definition and
+    lists it back exactly once (the cookware mirror of the ingredient clause of `RecipeInv`) -/
+def CookwareRefsOK (c : Col α) : Prop :=
+  ∀ (k : Nat) (cw : Cookware (ScalableValue α)), c.cookware[k]? = some cw →
+    ∀ t, cw.relation = .reference t →
+      t < k ∧ ∃ d, c.cookware[t]? = some d ∧ ∃ rf b, d.relation = .definition rf b ∧ rf.count k = 1
+
+/-- every index listed in a definition's `referenced_from` is a LATER component of the same table whose
+    relation is a regular reference to that definition — ingredients and cookware -/
+def BacklinksSound (c : Col α) : Prop :=
+  (∀ (t : Nat) (d : Ingredient (ScalableValue α)), c.ingredients[t]? = some d →
+    ∀ j ∈ d.relation.relation.referencedFrom,
+      t < j ∧ ∃ ig, c.ingredients[j]? = some ig ∧ ig.relation = ⟨.reference t, some .ingredient⟩) ∧
+  (∀ (t : Nat) (d : Cookware (ScalableValue α)), c.cookware[t]? = some d →
+    ∀ j ∈ d.relation.referencedFrom,
+      t < j ∧ ∃ cw, c.cookware[j]? = some cw ∧ cw.relation = .reference t)
+
+/-- an ingredient item (in the step at position `p` of section number `si`) whose ingredient targets a
+    STEP: the target index is the position of a step in the content of that same section, before `p` -/
+def StepRefsOK (c : Col α) : Prop :=
+  ∀ (si : Nat) (sec : Section), c.sections[si]? = some sec →
+    ∀ (p : Nat) (st : Step), sec.content[p]? = some (.step st) → ∀ k, Item.ingredient k ∈ st.items →
+      ∀ (ig : Ingredient (ScalableValue α)), c.ingredients[k]? = some ig →
+        ∀ i, ig.relation = ⟨.reference i, some .step⟩ → i < p ∧ ∃ st', sec.content[i]? = some (.step st')
+
+/-- an ingredient item in section number `si` whose ingredient targets a SECTION: the target index is
+    smaller than `si` (so it addresses an existing, earlier section) -/
+def SectionRefsOK (c : Col α) : Prop :=
+  ∀ (si : Nat) (sec : Section), c.sections[si]? = some sec →
+    ∀ (p : Nat) (st : Step), sec.content[p]? = some (.step st) → ∀ k, Item.ingredient k ∈ st.items →
+      ∀ (ig : Ingredient (ScalableValue α)), c.ingredients[k]? = some ig →
+        ∀ i, ig.relation = ⟨.reference i, some .section⟩ → i < si
+
+/-- a regular reference has the same name as its definition after the model's case folding
+    (`env.fold`, standing for `unicase`) — ingredients and cookware -/
+def RefNamesMatch (env : Env) (c : Col α) : Prop :=
+  (∀ (k : Nat) (ig : Ingredient (ScalableValue α)), c.ingredients[k]? = some ig →
+    ∀ t, ig.relation = ⟨.reference t, some .ingredient⟩ →
+      ∃ d, c.ingredients[t]? = some d ∧ foldStr env ig.name = foldStr env d.name) ∧
+  (∀ (k : Nat) (cw : Cookware (ScalableValue α)), c.cookware[k]? = some cw →
+    ∀ t, cw.relation = .reference t →
+      ∃ d, c.cookware[t]? = some d ∧ foldStr env cw.name = foldStr env d.name)
+
+/-- **Cookware references.**  In every recipe `parse` returns (valid or not): a cookware item whose
+    relation is a reference points to an EARLIER cookware item that is a definition, and that
+    definition's `referenced_from` lists the referrer exactly once. -/
+theorem C06_cookware_references (env : Env) (input : Str) (c : Col α)
+    (h : (parseRecipe (α := α) env input).output = some c) : CookwareRefsOK c := by
+  intro k cw hk t ht
+  obtain ⟨h1, d, h2, _, _, rf, b, h3, h4⟩ :=
+    C06_cookware_reference_backlinks env input _ c (pullEvents_evOK env.cs env.ext input) h k cw hk t ht
+  exact ⟨h1, d, h2, rf, b, h3, h4⟩
+
+/-- every event keeps the back-links sound: `set_referenced_from` appends the index the new component
+    is about to get, to the definition `resolve_reference` found, and nothing else writes relations -/
+theorem C06_backlinks_invariant_step (env : Env) (input : Str) (ev : Ev α) (s : Col α) (hi : Inv env s)
+    (hb : BackInv s) (hev : EvOK ev) : BackInv (processEvent env input ev s).2 :=
+  processEvent_back env input ev s hi hb hev
+
+/-- for ANY list of `EvOK` events: every `referenced_from` entry is a later regular reference to the
+    definition that lists it -/
+theorem C06_backlinks_sound_of_events (env : Env) (input : Str) (evs : List (Ev α)) (c : Col α)
+    (hev : ∀ ev ∈ evs, EvOK ev) (h : (parseEventsLoop env input evs {}).output = some c) : BacklinksSound c :=
+  parseEventsLoop_back env input evs {} c (Inv.init env) BackInv.init hev h
+
+/-- **Back-links are sound.**  In every recipe `parse` returns (valid or not): every index `j` listed in
+    the `referenced_from` of the definition at index `t` is LATER than `t` and the component at `j` is a
+    regular reference to `t` — for ingredients (so an intermediate reference is never listed) and for
+    cookware.  With `RecipeInv` / `C06_cookware_references` (each reference is listed exactly once by
+    its target) the two directions make `referenced_from` exactly the list of the referrers. -/
+theorem C06_backlinks_sound (env : Env) (input : Str) (c : Col α)
+    (h : (parseRecipe (α := α) env input).output = some c) : BacklinksSound c :=
+  C06_backlinks_sound_of_events env input _ c (pullEvents_evOK env.cs env.ext input) h
+
+/-- no `referenced_from` list has a repeated entry (each entry is a reference to the definition, and a
+    reference is listed exactly once) -/
+theorem C06_backlinks_no_duplicates (env : Env) (input : Str) (c : Col α)
+    (h : (parseRecipe (α := α) env input).output = some c) :
+    (∀ (t : Nat) (d : Ingredient (ScalableValue α)), c.ingredients[t]? = some d →
+      d.relation.relation.referencedFrom.Nodup) ∧
+    (∀ (t : Nat) (d : Cookware (ScalableValue α)), c.cookware[t]? = some d → d.relation.referencedFrom.Nodup) := by
+  have hev := pullEvents_evOK (α := α) env.cs env.ext input
+  have hs := C06_backlinks_sound env input c h
+  refine ⟨fun t d hd => ?_, fun t d hd => ?_⟩
+  · rw [List.nodup_iff_count]
+    intro j
+    by_cases hj : j ∈ d.relation.relation.referencedFrom
+    · obtain ⟨_, ig, hig, hrel⟩ := hs.1 t d hd j hj
+      obtain ⟨_, d', hd', _, _, rf, b, hr, hc⟩ := C06_reference_backlinks env input _ c hev h j ig hig t hrel
+      rw [hd] at hd'; cases hd'
+      rw [hr]; exact Nat.le_of_eq hc
+    · rw [List.count_eq_zero_of_not_mem hj]; exact Nat.zero_le _
+  · rw [List.nodup_iff_count]
+    intro j
+    by_cases hj : j ∈ d.relation.referencedFrom
+    · obtain ⟨_, cw, hcw, hrel⟩ := hs.2 t d hd j hj
+      obtain ⟨_, d', hd', _, _, rf, b, hr, hc⟩ := C06_cookware_reference_backlinks env input _ c hev h j cw hcw t hrel
+      rw [hd] at hd'; cases hd'
+      rw [hr]; exact Nat.le_of_eq hc
+    · rw [List.count_eq_zero_of_not_mem hj]; exact Nat.zero_le _
+
+/-- the parser emits `Section` events only between blocks, never between `Start` and `End`
+    (needed below: a block that is open across a `Section` event would be pushed into the new section
+    while its step references address the old one) -/
+theorem C06_parser_sections_outside_blocks (cs : CharSpec) (ext : Ext) (input : Str) :
+    SectionsOutsideBlocks (pullEvents (α := α) cs ext input).1.toList :=
+  pullEvents_sectionsOutsideBlocks cs ext input
+
+/-- every event of a stream whose `Section` events lie outside blocks keeps the intermediate-reference
+    invariant: a target computed against `current_section.content` / the number of finished sections
+    stays right because content only grows at its end, finished sections are never modified, and the
+    open block is pushed at the end of the current section -/
+theorem C06_intermediate_ref_invariant_step (env : Env) (input : Str) (ev : Ev α) (s : Col α)
+    (o o' : Option BlockKind) (hi : Inv env s) (h : IRefInv s) (hb : BlockNone s o) (hw : wbS o ev = some o')
+    (hev : EvOK ev) : IRefInv (processEvent env input ev s).2 :=
+  processEvent_iref env input ev s o o' hi h hb hw hev
+
+/-- for ANY list of `EvOK` events whose `Section` events lie outside blocks: step and section targets of
+    the ingredients used by the steps of the returned recipe are right -/
+theorem C06_intermediate_refs_of_events (env : Env) (input : Str) (evs : List (Ev α)) (c : Col α)
+    (hev : ∀ ev ∈ evs, EvOK ev) (hw : SectionsOutsideBlocks evs)
+    (h : (parseEventsLoop env input evs {}).output = some c) : StepRefsOK c ∧ SectionRefsOK c := by
+  have hf := parseEventsLoop_iref env input evs {} c none (Inv.init env) IRefInv.init (fun _ => rfl) hw hev h
+  exact ⟨fun si sec hs p st hp k hk ig hig i hr => ((hf si sec hs p st hp k hk ig hig) i).1 hr,
+         fun si sec hs p st hp k hk ig hig i hr => ((hf si sec hs p st hp k hk ig hig) i).2 hr⟩
+
+/-- **A step reference addresses an earlier step of the same section.**  In every recipe `parse`
+    returns (valid or not): if a step — at position `p` of the content of a section — has an ingredient
+    item whose ingredient's relation targets a STEP with index `i`, then `i < p` and the content of that
+    same section has a step at position `i` (the index counts content positions, text paragraphs
+    included, as `section.content[i]` in the renderer). -/
+theorem C06_step_reference_target (env : Env) (input : Str) (c : Col α)
+    (h : (parseRecipe (α := α) env input).output = some c) : StepRefsOK c :=
+  (C06_intermediate_refs_of_events env input _ c (pullEvents_evOK env.cs env.ext input)
+    (pullEvents_sectionsOutsideBlocks env.cs env.ext input) h).1
+
+/-- **A section reference addresses an earlier section.**  In every recipe `parse` returns (valid or
+    not): if a step of section number `si` has an ingredient item whose ingredient's relation targets a
+    SECTION with index `i`, then `i < si` — an existing section before the ingredient's own. -/
+theorem C06_section_reference_target (env : Env) (input : Str) (c : Col α)
+    (h : (parseRecipe (α := α) env input).output = some c) : SectionRefsOK c :=
+  (C06_intermediate_refs_of_events env input _ c (pullEvents_evOK env.cs env.ext input)
+    (pullEvents_sectionsOutsideBlocks env.cs env.ext input) h).2
+
+/-- **A reference has the name of its definition, ignoring case.**  In every recipe `parse` returns — the
+    property asks it of valid results, it holds of all — a regular ingredient reference and its target
+    have the same name after case folding (`env.fold`); the same for cookware. -/
+theorem C06_reference_name_matches (env : Env) (input : Str) (c : Col α)
+    (h : (parseRecipe (α := α) env input).output = some c) : RefNamesMatch env c := by
+  have hev := pullEvents_evOK (α := α) env.cs env.ext input
+  refine ⟨fun k ig hk t ht => ?_, fun k cw hk t ht => ?_⟩
+  · obtain ⟨_, d, h2, hn, _⟩ := C06_reference_backlinks env input _ c hev h k ig hk t ht
+    exact ⟨d, h2, by simpa [nameEq] using hn⟩
+  · obtain ⟨_, d, h2, hn, _⟩ := C06_cookware_reference_backlinks env input _ c hev h k cw hk t ht
+    exact ⟨d, h2, by simpa [nameEq] using hn⟩
+
+/-- the shape of every ingredient relation of the table (used by a step or not): a definition carries no
+    reference target, a reference carries one (`Ingredient::references_to` unwraps it), and a section
+    target addresses an existing section -/
+def RelationsShaped (c : Col α) : Prop :=
+  ∀ (k : Nat) (ig : Ingredient (ScalableValue α)), c.ingredients[k]? = some ig →
+    ((∃ rf b, ig.relation = ⟨.definition rf b, none⟩) ∨ (∃ i tg, ig.relation = ⟨.reference i, some tg⟩)) ∧
+    ∀ i, ig.relation = ⟨.reference i, some .section⟩ → i < c.sections.length
+
+/-- for ANY list of `EvOK` events: the relations of the returned ingredient table are well shaped -/
+theorem C06_relations_shaped_of_events (env : Env) (input : Str) (evs : List (Ev α)) (c : Col α)
+    (hev : ∀ ev ∈ evs, EvOK ev) (h : (parseEventsLoop env input evs {}).output = some c) : RelationsShaped c := by
+  have hf := parseEventsLoop_shape env input evs {} c (Inv.init env) ShapeInv.init hev h
+  exact fun k ig hk => ⟨hf.shape k ig hk, hf.secRange k ig hk⟩
+
+/-- **Every reference has a target kind, every section target exists.**  In every recipe `parse`
+    returns (valid or not), for EVERY ingredient of the table — also one that no step uses, e.g. added in
+    `[mode]: components`: a definition has `reference_target = None`, a reference has
+    `reference_target = Some(_)` (so `Ingredient::references_to`, which unwraps it, cannot panic, and
+    each reference falls under exactly one of the ingredient / step / section clauses), and a section
+    target is an index into `sections`. -/
+theorem C06_relations_shaped (env : Env) (input : Str) (c : Col α)
+    (h : (parseRecipe (α := α) env input).output = some c) : RelationsShaped c :=
+  C06_relations_shaped_of_events env input _ c (pullEvents_evOK env.cs env.ext input) h
+
+/-- no text item (`Item::Text`) of a step is empty -/
+def TextItemsNonEmpty (c : Col α) : Prop :=
+  ∀ sec ∈ c.sections, ∀ ct ∈ sec.content, ∀ st, ct = .step st → ∀ v, Item.text v ∈ st.items → v ≠ []
+
+/-- the parser-side lemma: every `Text` event `pullEvents` emits carries a non-empty text (`parse_step`
+    pushes the text only when it has a fragment, `parse_text_block` only when it is not blank, and
+    `Text::append` never stores an empty fragment) -/
+theorem C06_parser_text_events_nonempty (cs : CharSpec) (ext : Ext) (input : Str) :
+    ∀ ev ∈ (pullEvents (α := α) cs ext input).1.toList, TextNE ev := pullEvents_textNE cs ext input
+
+/-- for ANY list of `EvOK` events whose `Text` events are non-empty: no step of the returned recipe has an
+    empty text item (with INLINE_QUANTITIES the pieces around an inline quantity are pushed only when
+    non-empty) -/
+theorem C06_text_items_nonempty_of_events (env : Env) (input : Str) (evs : List (Ev α)) (c : Col α)
+    (hev : ∀ ev ∈ evs, EvOK ev) (hne : ∀ ev ∈ evs, TextNE ev)
+    (h : (parseEventsLoop env input evs {}).output = some c) : TextItemsNonEmpty c :=
+  parseEventsLoop_txt env input evs {} c (Inv.init env) TxtInv.init hev hne h
+
+/-- **No text item is empty.**  In every recipe `parse` returns (valid or not, any extensions): every
+    `Item::Text` of every step has a non-empty value (besides: no section, step or text paragraph is
+    empty, `RecipeInv`). -/
+theorem C06_no_empty_text_item (env : Env) (input : Str) (c : Col α)
+    (h : (parseRecipe (α := α) env input).output = some c) : TextItemsNonEmpty c :=
+  C06_text_items_nonempty_of_events env input _ c (pullEvents_evOK env.cs env.ext input)
+    (pullEvents_textNE env.cs env.ext input) h
+
+/-- **C06, every clause.**  Every recipe `parse` returns — for every input, extension set and converter
+    environment, valid or alongside errors — satisfies `RecipeInv` (item indices in range, ingredient
+    references point to an earlier definition that lists them back exactly once, nothing empty, steps
+    numbered 1,2,…, timers named or quantified) AND: item indices increase in document order
+    (`OrdFinal`); cookware references point to an earlier definition that lists them back exactly once;
+    every `referenced_from` entry is a later reference to the definition listing it; a step reference
+    addresses an earlier step of the same section and a section reference an earlier section; a
+    reference has the name of its definition up to case; every reference carries its target kind and every
+    section target exists; no text item of a step is empty; and when the report has no error a component
+    is a reference exactly when it carries the reference modifier. -/
+theorem C06_holds_full (env : Env) (input : Str) (c : Col Rat)
+    (h : (parseRecipe (α := Rat) env input).output = some c) :
+    RecipeInv c ∧ OrdFinal c ∧ CookwareRefsOK c ∧ BacklinksSound c ∧ StepRefsOK c ∧ SectionRefsOK c ∧
+    RefNamesMatch env c ∧ RelationsShaped c ∧ TextItemsNonEmpty c ∧
+    ((∀ d ∈ (parseRecipe (α := Rat) env input).diags.toList, d.sev ≠ Sev.error) →
+      (∀ (k : Nat) (ig : Ingredient (ScalableValue Rat)), c.ingredients[k]? = some ig →
+        (ig.relation.relation.isReference = true ↔ ig.modifiers.contains Modifiers.REF = true)) ∧
+      (∀ (k : Nat) (cw : Cookware (ScalableValue Rat)), c.cookware[k]? = some cw →
+        (cw.relation.isReference = true ↔ cw.modifiers.contains Modifiers.REF = true))) :=
+  ⟨C06_holds env input c h, (C06_holds_extended env input c h).2.1, C06_cookware_references env input c h,
+   C06_backlinks_sound env input c h, C06_step_reference_target env input c h,
+   C06_section_reference_target env input c h, C06_reference_name_matches env input c h,
+   C06_relations_shaped env input c h, C06_no_empty_text_item env input c h,
+   (C06_holds_extended env input c h).2.2⟩
+
+/-! non-vacuity of the new predicates and hypotheses -/
+
+-- a section event between blocks is accepted, one inside a block is not
+example : SectionsOutsideBlocks ([.start .step, .text (Text.empty 0), .stop .step, .«section» none, .start .text,
+    .stop .text] : List (Ev Rat)) :=
+  ⟨some .step, rfl, some .step, rfl, none, rfl, none, rfl, some .text, rfl, none, rfl, trivial⟩
+example : ¬ SectionsOutsideBlocks ([.start .step, .«section» none, .stop .step] : List (Ev Rat)) := by
+  rintro ⟨o, h1, o', h2, _⟩
+  cases h1
+  cases h2
+
+-- a two-section recipe whose last step refers to the first step of its section and to section 0:
+-- the clauses hold; a forward or cross-section step target violates them
+private def exRecipe (rel : IngredientRelation) : Col Rat :=
+  { sections := [⟨none, [.step ⟨[.text ['a']], 1⟩]⟩,
+                 ⟨some ['s'], [.step ⟨[.text ['b']], 1⟩, .text ['x'], .step ⟨[.ingredient 0], 2⟩]⟩],
+    ingredients := #[⟨['i'], none, none, none, none, rel, ⟨Modifiers.REF⟩⟩] }
+
+example : StepRefsOK (exRecipe ⟨.reference 0, some .step⟩) := by
+  intro si sec hs p st hp k hk ig hig i hr
+  match si, hs with
+  | 0, hs =>
+    cases hs
+    match p, hp with
+    | 0, hp => cases hp; simp at hk
+  | 1, hs =>
+    cases hs
+    match p, hp with
+    | 0, hp => cases hp; simp at hk
+    | 2, hp =>
+      cases hp
+      simp only [List.mem_singleton, Item.ingredient.injEq] at hk
+      subst hk
+      cases hig
+      cases hr
+      exact ⟨by omega, _, rfl⟩
+example : ¬ StepRefsOK (exRecipe ⟨.reference 2, some .step⟩) := by
+  intro h
+  have := (h 1 _ rfl 2 _ rfl 0 (by simp) _ rfl 2 rfl).1
+  omega
+example : ¬ StepRefsOK (exRecipe ⟨.reference 1, some .step⟩) := by
+  intro h
+  obtain ⟨_, st', hst⟩ := h 1 _ rfl 2 _ rfl 0 (by simp) _ rfl 1 rfl
+  cases hst
+example : ¬ SectionRefsOK (exRecipe ⟨.reference 1, some .section⟩) := by
+  intro h
+  have := h 1 _ rfl 2 _ rfl 0 (by simp) _ rfl 1 rfl
+  omega
+
+-- an empty text item is rejected; the events of the example below have non-empty texts
+example : TextItemsNonEmpty (exRecipe ⟨.reference 0, some .step⟩) := by
+  intro sec hsec ct hct st hst v hv
+  simp only [exRecipe, List.mem_cons, List.mem_nil_iff, or_false] at hsec
+  rcases hsec with rfl | rfl <;> simp only [List.mem_cons, List.mem_nil_iff, or_false] at hct
+  · subst hct; cases hst; simp at hv; subst hv; simp
+  · rcases hct with rfl | rfl | rfl <;> cases hst <;> simp at hv
+    subst hv; simp
+example : ¬ TextItemsNonEmpty (α := Rat) { sections := [⟨none, [.step ⟨[.text []], 1⟩]⟩] } := by
+  intro h
+  exact h ⟨none, [.step ⟨[.text []], 1⟩]⟩ List.mem_cons_self (.step ⟨[.text []], 1⟩) List.mem_cons_self _ rfl []
+    List.mem_cons_self rfl
+
+-- a reference without target kind, or a section target past the end, is rejected
+example : RelationsShaped (exRecipe ⟨.reference 1, some .section⟩) := by
+  intro k ig hk
+  have hk2 : k < 1 := lt_size_of_getElem? hk
+  obtain rfl : k = 0 := by omega
+  cases hk
+  exact ⟨Or.inr ⟨_, _, rfl⟩, fun i hr => by cases hr; decide⟩
+example : ¬ RelationsShaped (exRecipe ⟨.reference 0, none⟩) := by
+  intro h
+  rcases (h 0 _ rfl).1 with ⟨_, _, hc⟩ | ⟨_, _, hc⟩ <;> cases hc
+example : ¬ RelationsShaped (exRecipe ⟨.reference 2, some .section⟩) := by
+  intro h
+  have := (h 0 _ rfl).2 2 rfl
+  revert this; decide
+
+-- a definition that lists index 1, and index 1 refers back to it: sound; listing itself is not
+example : BacklinksSound (α := Rat)
+    { ingredients := #[⟨['i'], none, none, none, none, ⟨.definition [1] true, none⟩, ⟨0⟩⟩,
+                       ⟨['I'], none, none, none, none, ⟨.reference 0, some .ingredient⟩, ⟨Modifiers.REF⟩⟩] } := by
+  refine ⟨?_, fun t d hd => by simp at hd⟩
+  intro t d hd j hj
+  have ht : t < 2 := lt_size_of_getElem? hd
+  obtain rfl | rfl : t = 0 ∨ t = 1 := by omega
+  · simp only [List.getElem?_toArray, List.getElem?_cons_zero, Option.some.injEq] at hd
+    subst hd
+    simp only [ComponentRelation.referencedFrom, List.mem_singleton] at hj
+    subst hj
+    exact ⟨by omega, _, rfl, rfl⟩
+  · simp only [List.getElem?_toArray, List.getElem?_cons_succ, List.getElem?_cons_zero, Option.some.injEq] at hd
+    subst hd
+    cases hj
+example : ¬ BacklinksSound (α := Rat)
+    { ingredients := #[⟨['i'], none, none, none, none, ⟨.definition [0] true, none⟩, ⟨0⟩⟩] } := by
+  intro h
+  have := (h.1 0 _ rfl 0 (by simp [ComponentRelation.referencedFrom])).1
+  omega
+
+/-! non-vacuity, through the fold: a concrete event list (as the parser would emit for
+    `@a #p` / `= s` / `b` / `@&(~1)… @&(=1)… @&A #&p`) whose returned recipe contains every kind of
+    reference the clauses above talk about — a step target, a section target, a regular ingredient
+    reference matched ignoring case, a cookware reference — with the back-links `[3]` and `[1]` -/
+private def exFoldEnv : Env :=
+  ⟨⟨fun c => c == ' ', fun _ => false, fun c => c == 'x', fun c => c == ' ' || c == '\n', fun c => c == 'x'⟩,
+   ⟨0⟩, fun _ => none, fun _ _ => .ok, fun c => [c.toLower], 0⟩
+private def exTx (c : Char) : Text := ⟨[⟨[c], 0, false⟩], 0, false⟩
+private def exFoldEvs : List (Ev Rat) := [
+  .start .step, .ingredient ⟨⟨⟨⟨0⟩, ⟨0, 0⟩⟩, none, exTx 'a', none, none, none⟩, ⟨0, 0⟩⟩,
+    .cookware ⟨⟨⟨⟨0⟩, ⟨0, 0⟩⟩, exTx 'p', none, none, none⟩, ⟨0, 0⟩⟩, .stop .step,
+  .«section» (some (exTx 's')),
+  .start .step, .text (exTx 'b'), .stop .step,
+  .start .step,
+    .ingredient ⟨⟨⟨⟨Modifiers.REF⟩, ⟨0, 0⟩⟩, some ⟨⟨true, false, 1⟩, ⟨0, 0⟩⟩, Text.empty 0, none, none, none⟩, ⟨0, 0⟩⟩,
+    .ingredient ⟨⟨⟨⟨Modifiers.REF⟩, ⟨0, 0⟩⟩, some ⟨⟨false, true, 1⟩, ⟨0, 0⟩⟩, Text.empty 0, none, none, none⟩, ⟨0, 0⟩⟩,
+    .ingredient ⟨⟨⟨⟨Modifiers.REF⟩, ⟨0, 0⟩⟩, none, exTx 'A', none, none, none⟩, ⟨0, 0⟩⟩,
+    .cookware ⟨⟨⟨⟨Modifiers.REF⟩, ⟨0, 0⟩⟩, exTx 'p', none, none, none⟩, ⟨0, 0⟩⟩,
+  .stop .step]
+example : (parseEventsLoop exFoldEnv [] exFoldEvs {}).output.map
+      (fun c => (c.ingredients.toList.map (·.relation), c.cookware.toList.map (·.relation), c.sections)) =
+    some ([⟨.definition [3] true, none⟩, ⟨.reference 0, some .step⟩, ⟨.reference 0, some .section⟩,
+           ⟨.reference 0, some .ingredient⟩],
+          [.definition [1] true, .reference 0],
+          [⟨none, [.step ⟨[.ingredient 0, .cookware 0], 1⟩]⟩,
+           ⟨some ['s'], [.step ⟨[.text ['b']], 1⟩,
+                         .step ⟨[.ingredient 1, .ingredient 2, .ingredient 3, .cookware 1], 2⟩]⟩]) := by rfl
+example : (parseEventsLoop exFoldEnv [] exFoldEvs {}).diags.toList = [] := by rfl
+example : ∀ ev ∈ exFoldEvs, TextNE ev := by
+  intro ev hmem
+  simp only [exFoldEvs, List.mem_cons, List.mem_nil_iff, or_false] at hmem
+  rcases hmem with rfl | rfl | rfl | rfl | rfl | rfl | rfl | rfl | rfl | rfl | rfl | rfl | rfl | rfl <;>
+    first | trivial | (show (exTx 'b').text ≠ []; decide)
+example : SectionsOutsideBlocks exFoldEvs :=
+  ⟨_, rfl, _, rfl, _, rfl, _, rfl, _, rfl, _, rfl, _, rfl, _, rfl, _, rfl, _, rfl, _, rfl, _, rfl, _, rfl, _, rfl, trivial⟩
+
+/-! the hypothesis `SectionsOutsideBlocks` of `C06_intermediate_refs_of_events` is needed: with a
+    `Section` event between `Start` and `End` (events the parser never emits, all `EvOK`) the open step
+    is pushed into the NEW section while its `~1` target addresses position 0 of the old one -/
+private def exBadEvs : List (Ev Rat) := [
+  .start .step, .text (exTx 'b'), .stop .step,
+  .start .step,
+    .ingredient ⟨⟨⟨⟨Modifiers.REF⟩, ⟨0, 0⟩⟩, some ⟨⟨true, false, 1⟩, ⟨0, 0⟩⟩, Text.empty 0, none, none, none⟩, ⟨0, 0⟩⟩,
+    .«section» none,
+  .stop .step]
+example : (∀ ev ∈ exBadEvs, EvOK ev) ∧ ¬ SectionsOutsideBlocks exBadEvs ∧
+    ∀ c, (parseEventsLoop exFoldEnv [] exBadEvs {}).output = some c → ¬ StepRefsOK c := by
+  refine ⟨?_, ?_, ?_⟩
+  · intro ev hmem
+    simp only [exBadEvs, List.mem_cons, List.mem_nil_iff, or_false] at hmem
+    rcases hmem with rfl | rfl | rfl | rfl | rfl | rfl | rfl <;> simp [EvOK, Modifiers.contains]
+  · rintro ⟨_, h1, _, h2, _, h3, _, h4, _, h5, _, h6, _⟩
+    cases h1; cases h2; cases h3; cases h4; cases h5; cases h6
+  · intro c hc h
+    have e : ((parseEventsLoop exFoldEnv [] exBadEvs {}).output.map
+        fun c => (c.sections, c.ingredients[0]?.map (·.relation))) =
+        some ([⟨none, [.step ⟨[.text ['b']], 1⟩]⟩, ⟨none, [.step ⟨[.ingredient 0], 1⟩]⟩],
+              some ⟨.reference 0, some .step⟩) := by rfl
+    rw [hc] at e
+    simp only [Option.map_some, Option.some.injEq, Prod.mk.injEq] at e
+    obtain ⟨e1, e2⟩ := e
+    obtain ⟨ig, hig, hrel⟩ := Option.map_eq_some_iff.mp e2
+    have := (h 1 _ (by rw [e1]; rfl) 0 _ rfl 0 (by simp) ig hig 0 hrel).1
+    omega
 
 end Cook
